@@ -192,6 +192,29 @@ def build(case, rec):
   return case["path"], mujoco.MjModel.from_xml_path(path), {"repo:" + case["path"]}
 
 
+def camlight_prediction(minp, st):
+  """cam/light reference fields as obtained from mj_camlight's pose at qpos0 (inputs still carry the old *_pos0/mat0/dir0)."""
+  minp = copy.copy(minp)
+  sub = np.array(minp.body_mass)
+  for b in range(minp.nbody - 1, 0, -1):
+    sub[minp.body_parentid[b]] += sub[b]
+  minp.body_subtreemass[:] = sub  # set_const_fixed runs first, so the centre-of-mass pass sees the new subtree masses
+  d = mujoco.MjData(minp)
+  mw.apply_state_mj(minp, d, st)
+  d.qpos[:] = minp.qpos0
+  mujoco.mj_kinematics(minp, d)
+  mujoco.mj_comPos(minp, d)
+  mujoco.mj_camlight(minp, d)
+  out = {}
+  for pre, n, bid, tid, xp, xo in (("cam", minp.ncam, minp.cam_bodyid, minp.cam_targetbodyid, d.cam_xpos, d.cam_xmat), ("light", minp.nlight, minp.light_bodyid, minp.light_targetbodyid, d.light_xpos, d.light_xdir)):
+    pos0 = np.array([xp[i] - d.xpos[bid[i]] for i in range(n)]).reshape(n, 3)
+    com0 = np.array([xp[i] - d.subtree_com[tid[i] if tid[i] >= 0 else bid[i]] for i in range(n)]).reshape(n, 3)
+    out[pre + "_pos0"] = pos0
+    out[pre + "_poscom0"] = com0
+    out[pre + ("_mat0" if pre == "cam" else "_dir0")] = np.array(xo).reshape(n, 9 if pre == "cam" else 3)
+  return out
+
+
 def stack_field(models, name):
   return np.stack([np.array(getattr(mm, name), dtype=np.float64) for mm in models])
 
@@ -247,6 +270,7 @@ def run_case(case):
     mw.apply_state_mj(mref, mjd, states[w])  # same mocap poses / qpos as the MJWarp Data of this world
     mujoco.mj_setConst(mref, mjd)
     singular = bool(mref.nv and np.abs(mref.dof_invweight0).max() > 1e8)
+    camlight_pred = camlight_prediction(worlds[w], states[w])
     for n, allow in DERIVED.items():
       if n not in got:
         continue
@@ -278,12 +302,18 @@ def run_case(case):
         k = r.size // max(1, modes.size)
         gm, rm = g.reshape(modes.size, k), r.reshape(modes.size, k)
         fixed = modes == 0
-        if fixed.any():
-          judge_el(rec, n + "_fixed_mode", gm[fixed], rm[fixed], allow, 0.0, scale=sc, sig=n, ctx=ctx)
-          rec.cover("camlight_fixed_mode_compared", 1)
-        if (~fixed).any():
-          judge_el(rec, n + "_tracking_mode", gm[~fixed], rm[~fixed], allow, 0.0, scale=sc, sig=n + ":tracking-or-target-mode-uses-camlight-pose", ctx=ctx)
-          rec.cover("camlight_tracking_mode_compared", 1)
+        # the classified mechanism: value == what mj_camlight's (mode dependent) pose at qpos0 gives with the old *_pos0
+        if modes.size == 0:
+          continue
+        pm = camlight_pred[n].reshape(modes.size, k)
+        cls = (~fixed) & (np.abs(gm - pm).max(axis=1) <= cmp.VIOL_FACTOR * allow * sc) & (np.abs(rm - pm).max(axis=1) > cmp.VIOL_FACTOR * allow * sc)
+        if (~cls).any():
+          judge_el(rec, n, gm[~cls], rm[~cls], allow, 0.0, scale=sc, sig=n, ctx=ctx)
+          rec.cover("camlight_fixed_mode_compared", int(fixed.sum()))
+          rec.cover("camlight_tracking_mode_compared", int((~fixed & ~cls).sum()))
+        if cls.any():
+          judge_el(rec, n + "_tracking_mode", gm[cls], rm[cls], allow, 0.0, scale=sc, sig=n + ":tracking-or-target-mode-uses-camlight-pose", ctx=ctx)
+          rec.cover("camlight_tracking_mode_follows_camlight", int(cls.sum()))
         continue
       if n == "body_invweight0":
         gm, rm = g.reshape(-1, 2), r.reshape(-1, 2)
